@@ -128,6 +128,19 @@ def apply_op(op, root, node, model, labels):
             labels.add("op:compound_ndarray")
         if op["int"] % 5 == 1 and hasattr(root, "_buffer"):
             # an existing object of the very same class, in the same or in another buffer of the context
+            if cspec["k"] == "struct" and not tg.has_refs(cspec):
+                # same total size, other split: the values of two string fields trade places (fits only as a whole)
+                sf = [fn for fn, ft in cspec["fields"] if ft["k"] == "string"]
+                if len(sf) >= 2 and len(cur[sf[0]].encode()) // 8 != len(cur[sf[1]].encode()) // 8:
+                    swapped = dict(new)
+                    swapped[sf[0]], swapped[sf[1]] = cur[sf[1]], cur[sf[0]]
+                    # only fitting when the value occupies exactly the target's size (it is then copied as a whole)
+                    tgt_now = sut(lambda: mat.obj_get(root, node, path)[0] if path else root)
+                    probe = sut(cnode.cls, plain_arg(cnode, swapped))
+                    if not is_raised(tgt_now) and not is_raised(probe) and int(probe._size) == int(tgt_now._size):
+                        new = swapped
+                        arg = plain_arg(cnode, new)
+                        labels.add("op:compound_xobject_other_split")
             same = op["li"] % 2 == 0
             dst = root._buffer if same else type(root._buffer)(capacity=64, context=root._buffer.context)
             arg = sut(cnode.cls, arg, _buffer=dst)
